@@ -53,6 +53,11 @@ def store(src, resdir):
                                 'ok': bool(r.get('demo_ok')), 'with_change_tail': r['demo_with_patch']['tail'][-200:]}
             if r.get('suite') and 'suite' not in conf:
                 conf['suite'] = r['suite']
+        rr = os.path.join(resdir, seed + '.rerun.txt')
+        if os.path.exists(rr):
+            conf['suite_rerun'] = open(rr).read().strip()
+            if conf.get('suite'):
+                conf['suite']['ok_after_rerun'] = True
         conf['how'] = ('tools/seedeval.py <seed> --suite: copy of /repo under the temp dir, git apply patch.diff, demo.py with PYTHONPATH at the '
                        'copy (must fail) and at /repo (must pass), then the whole unedited test suite in a private network namespace on '
                        'the copy (only the three always-failing replwrap tests may fail)')
